@@ -44,6 +44,7 @@ func processReadBuf(rb []byte, searchDepth int) []byte {
 func (c *Channel) read() {
 	defer func() {
 		c.readLoopExited.Store(true)
+		close(c.exited)
 	}()
 
 	for {
@@ -77,7 +78,12 @@ func (c *Channel) read() {
 				"encountered error reading from transport during channel read loop. error: %s", err,
 			)
 
-			c.Errs <- err
+			select {
+			case c.Errs <- err:
+			case <-c.done:
+				// closing while nobody is around to pick the error up
+				return
+			}
 
 			time.Sleep(c.ReadDelay)
 
